@@ -169,6 +169,15 @@ def check_formats(st, nbest, lang, formats, base, count=True, skip=()):
             bad(fmt, f'rendering raised {e!r}', kind='render_error', detail=f'{type(e).__name__}:{str(e)[:40]}')
             continue
         st.observe(fmt, hashlib.sha1(text.encode('utf8', 'replace')).hexdigest())
+        if len(nbest) == 1 and len(nbest[0]) >= 2:
+            # the n-best list of one sentence may be handed over flat: [tree, tree, ...] is one sentence, like [[tree, tree, ...]]
+            try:
+                flat_text = render(copy.deepcopy(nbest[0]) if fmt == 'jigg_xml' else list(nbest[0]), fmt)
+            except Exception as e:
+                flat_text = f'raised {e!r}'
+            st.count('flat_call_forms')
+            if flat_text != text:
+                bad(fmt, f'the flat call form to_string([tree, tree, ...]) differs from the nested one for the n-best list of one sentence: {flat_text[:120]!r} vs {text[:120]!r}', kind='call_form')
         try:
             if fmt in ('auto', 'auto_extended', 'ptb', 'ja', 'deriv'):
                 recs = D.split_records(text)
@@ -374,7 +383,44 @@ def rule_vocabulary(lang):
         body = src[src.index('def _unary_rule_symbol'):src.index('def apply_unary_rules')]
         for a in _re.findall(r"return '(\w+)'", body):
             voc.add(('unary', a, a))
+    voc |= set(observed_unary(lang))
     return voc
+
+
+_OBS = {}
+
+
+def observed_unary(lang):
+    """labels the unary rule function actually emits for inputs with 0..5 arguments of every modifier kind (a label computed from the
+    input, e.g. from its number of arguments, does not appear as a literal in the source): {(arity, op_string, op_symbol): tuple tree}"""
+    if lang in _OBS:
+        return _OBS[lang]
+    from depccg.grammar import en, ja
+    un = en.apply_unary_rules if lang == 'en' else ja.apply_unary_rules
+    P = K.P
+    out = {}
+    if lang == 'ja':
+        heads = ['S[mod=adv,form=cont,fin=f]', 'S[mod=adn,form=base,fin=f]', 'S[mod=nm,form=base,fin=f]', 'NP[case=nc,mod=nm,fin=f]', 'NP[case=nc,mod=adv,fin=f]', 'NP[case=nc,mod=adn,fin=f]']
+        args = ['NP[case=ga,mod=nm,fin=f]', 'NP[case=o,mod=nm,fin=f]', 'NP[case=ni,mod=nm,fin=f]']
+        targets = [P('S[mod=X1,form=X2,fin=X3]/S[mod=X1,form=X2,fin=X3]'), P('NP[case=nc,mod=X1,fin=X2]/NP[case=nc,mod=X1,fin=X2]')]
+    else:
+        heads = ['N', 'NP', 'S[dcl]', 'S[pss]', 'S[ng]', 'S[adj]', 'S[to]']
+        args = ['NP', 'NP', 'PP']
+        targets = [P('NP'), P('S[X]/(S[X]\\NP)'), P('NP\\NP'), P('(S\\NP)\\(S\\NP)')]
+    for h in heads:
+        x = P(h)
+        for k in range(6):
+            for tg in targets:
+                try:
+                    rs = un(x, {x: [tg]})
+                except Exception:
+                    rs = []
+                for r in rs:
+                    key = ('unary', r.op_string, r.op_symbol)
+                    out.setdefault(key, ('U', str(r.cat), (r.op_string, r.op_symbol), ('L', str(x), 0)))
+            x = K.Functor(x, '\\', P(args[k % len(args)]))
+    _OBS[lang] = out
+    return out
 
 
 def extra_unary(lang):
@@ -415,6 +461,9 @@ def covering_trees(lang, missing):
             for r in un(x, table):
                 if ('unary', r.op_string, r.op_symbol) == m:
                     out[m] = ('U', str(r.cat), (r.op_string, r.op_symbol), ('L', str(x), 0))
+    for m, t in observed_unary(lang).items():
+        if m in missing and m not in out:
+            out[m] = t
     return out
 
 
